@@ -267,6 +267,24 @@ func init() {
 		Run: func(c *mon.Ctx, i int) {
 			m := []V1Set{V1None, V1SetM, V1Mset, V1Keys}[i%4]
 			a, b := v1Pair(c.R, m, gen.PDefault, i)
+			if i%8 == 7 {
+				// two set keys given with blanks around the names; members share "id" and differ in "k2"
+				m = V1Set{Name: "v1:SET+Setkeys(id, k2)", MD: func() []lib.Metadata { return []lib.Metadata{lib.SET, lib.Setkeys("id", "k2")} }, Reading: ref.Set,
+					Keys: []string{"id", "k2"}, Flags: []string{"-set", "-setkeys", "id , k2"}}
+				mk := func(flip bool) []any {
+					arr := []any{}
+					for j := 0; j < 3; j++ {
+						v := float64(c.R.Intn(3))
+						if flip && j >= 1 {
+							v += 7
+						}
+						arr = append(arr, map[string]any{"id": 1.0, "k2": []string{"x", "y", "z"}[j], "v": v})
+					}
+					return arr
+				}
+				a, b = mk(false), mk(true)
+				c.Feature("cli_v1_setkeys_with_blanks")
+			}
 			aText, bText := ref.ToJSON(a), ref.ToJSON(b)
 			c.Input("a", aText)
 			c.Input("b", bText)
